@@ -114,6 +114,25 @@ SHIFT_EXCLUDE = {'iota2', 'varphi'}
 FMIN_OUT = dict(min_R0=('R0', -1), min_L_grad_B=('L_grad_B', -1), max_elongation=('elongation', 1))
 
 
+def multiwell_bracket(q, name, up=32):
+    """the trigonometric interpolant of the profile behind a fourier_minimum output has MORE than one local extremum of the searched kind within one grid spacing of
+    the best sample (the bracket scipy's bounded search works in): the data is not single-well there and which extremum the golden-section search settles on depends
+    on where the bracket sits in absolute terms (property C20 claims the interpolant minimum for single-well data)"""
+    prof, sign = FMIN_OUT[name]
+    y = -sign * np.asarray(getattr(q, prof), dtype=float)          # minimise
+    n = y.size
+    if y.ndim != 1 or n < 5 or n % 2 == 0:
+        return False
+    F = np.fft.rfft(y)
+    Fp = np.zeros(n * up // 2 + 1, dtype=complex); Fp[:F.size] = F
+    f = np.fft.irfft(Fp, n * up) * up
+    j = int(np.argmin(y)) * up
+    idx = np.arange(j - up, j + up + 1) % (n * up)
+    w = f[idx]
+    mins = np.sum((w[1:-1] < w[:-2]) & (w[1:-1] <= w[2:]))
+    return bool(mins > 1)
+
+
 def tied_extremum(q, name):
     """the two best samples of the profile behind a fourier_minimum output agree to 1e-9 relative and are not neighbours"""
     prof, sign = FMIN_OUT[name]
@@ -179,7 +198,7 @@ def predict_shift(cfg, k, tol=1e-6, q0=None):
                 dev = np.zeros_like(dev)
         err = float(np.max(dev)) if np.size(dev) else 0.0
         checked += 1
-        if err > tol and name in FMIN_OUT and tied_extremum(q0, name):
+        if err > tol and name in FMIN_OUT and (tied_extremum(q0, name) or multiwell_bracket(q0, name)):
             # fourier_minimum refines the extremum next to the discrete arg-extremum; when the two best samples are equal to round-off (mirror-image partners of a
             # stellarator-symmetric profile) the choice between them is made by round-off, and on an unresolved profile the two refinements differ: conditioning of
             # the selection, not a dependence on the origin (on exactly shifted data fourier_minimum is shift invariant: theories/Bracket.v, kernels oracle)
